@@ -27,6 +27,8 @@ struct D {
     reboot_refusals: usize,
     refused: usize,
     install: bool,
+    /// answer to pings in the reboot wait: 0 ok, 1 HTTP 500, 2 lost in transit
+    ping_answer: usize,
 }
 
 impl Director for D {
@@ -56,6 +58,8 @@ impl Director for D {
                 &[AppDoc::new("app-A", if self.install { Uc::OkManifest("2.0.0.0".into()) } else { Uc::NoUpdate })],
                 &Daystart::Absent,
             ))),
+            ReqKind::Ping if self.ping_answer == 1 => HttpAns::Resp(RespSpec::ok(b"oops".to_vec()).status(500)),
+            ReqKind::Ping if self.ping_answer == 2 => HttpAns::Transport,
             _ => HttpAns::Resp(RespSpec::ok(response_bytes(&[AppDoc::new("app-A", Uc::NoUpdate)], &Daystart::Absent))),
         }
     }
@@ -272,6 +276,7 @@ fn run_outer(ctx: &RunCtx, tier: Tier) -> RunOut {
         reboot_refusals: 0,
         refused: 0,
         install: false,
+        ping_answer: 0,
     };
     let mut e = Exec::new(s, Box::new(d), Store::default());
     if with_client > 0 {
@@ -322,6 +327,8 @@ fn run_reboot(ctx: &RunCtx, tier: Tier) -> RunOut {
         reboot_refusals: refusals,
         refused: 0,
         install: true,
+        // whatever a ping is answered, the next ping wait starts with a fresh timing question
+        ping_answer: choose("ping.answer", 3),
     };
     let mut e = Exec::new(s, Box::new(d), Store::default());
     match client {
@@ -389,8 +396,8 @@ fn parts(tier: Tier) -> Vec<PartDef> {
         ),
         PartDef::new(
             "reboot-wait",
-            Cfg::new("C12/reboot-wait").dev(d).free(&["timing.shape", "timing.min_wait", "reboot_refusals", "client"]),
-            json!({"timing_shapes": 3, "minimum_wait": ["none", "7 s"], "reboot_refusals": [1, 2], "client": ["none", "scheduled request", "on-demand then scheduled request"], "scheduling": format!("ping timers and the 30-minute timer in every order, at most {d} non-default choices")}),
+            Cfg::new("C12/reboot-wait").dev(d - 1).free(&["timing.shape", "timing.min_wait", "reboot_refusals", "client", "ping.answer"]),
+            json!({"timing_shapes": 3, "minimum_wait": ["none", "7 s"], "reboot_refusals": [1, 2], "ping_answers": ["ok", "HTTP 500", "lost in transit"], "client": ["none", "scheduled request", "on-demand then scheduled request"], "scheduling": format!("ping timers and the 30-minute timer in every order, at most {} non-default choices", d - 1)}),
             move |ctx| run_reboot(ctx, tier),
         ),
     ]
